@@ -582,6 +582,32 @@ def c02_qualified_twin(p: str) -> bool:
     return ok
 
 
+TINSTS = [T("Y", T("Z", ns=("ns",)), ns=("ns",)),                                     # ns::Y<ns::Z>: the argument repeats the qualifier
+          T("Y", T("Z", ns=("myns",)), ns=("ns",)),                                   # ns::Y<myns::Z>: the qualifier is a suffix of the argument's
+          T("Cam", T("Cal", ns=("gtsam",)), T("K", ns=("gtsam", "sub")), ns=("gtsam",)),  # two arguments, one nested deeper
+          T("Y", T("Y", T("Z", ns=("ns",)), ns=("ns",)), ns=("ns",)),                 # ns::Y<ns::Y<ns::Z>>
+          T("Plain", T("Z", ns=("ns",))),                                             # un-namespaced template, namespaced argument
+          T("Y", T("Z", ns=("ns", "ns")), ns=("ns", "ns"))]                           # ns::ns::Y<ns::ns::Z>
+TSHAPES = [T("Value", ns=("T",)), T("vector", T("Value", ns=("T",)), ns=("std",)), T("Scalar", ns=("T", "Traits")),
+           T("map", T("int"), T("vector", T("Value", ns=("T",), suf="*"), ns=("std",)), ns=("std",)), T("Value", ns=("T",), const=True, suf="&"),
+           T("T"), T("vector", T("T"), ns=("std",)), T("Rebind", T("T"), ns=("T",)), T("pair", T("T"), T("Value", ns=("T",)), ns=("std",))]
+
+
+def c02_templated_instantiations(inst: int, shape: int, this: int) -> bool:
+    """
+    The parameter instantiated with a TEMPLATED concrete type whose own template arguments repeat (or end in) its
+    namespace qualifier: bare, scoped (`T::Value`, `T::Traits::Scalar`, `T::Rebind<T>`) and nested uses are replaced by
+    exactly that type — its arguments, with their own qualifiers, intact.
+    pre: 0 <= inst < len(TINSTS) and 0 <= shape < len(TSHAPES) and 0 <= this <= 1
+    post: _
+    """
+    inst, shape, this = pick(inst, 0, len(TINSTS)), pick(shape, 0, len(TSHAPES)), pick(this, 0, 2)
+    with concrete():
+        ok = _check_type(TSHAPES[shape], ["T"], [TINSTS[inst]], CLS if this else None)
+    reached({"inst": inst, "shape": shape})
+    return ok
+
+
 def c02_function_positions(p: str, q: str) -> bool:
     """
     Free function template: args, pair return with scoped second type, default text untouched.
